@@ -49,7 +49,7 @@ class Gen:
             callees = [j for j in range(i) if r.random() < 0.5]
             body = [Decl("int", "t", B("+", B("*", V("a"), I(r.choice([2, 3, 5]))), V("b")))]
             for j in callees:
-                body.append(ES(A(V("t"), B("+", V("t"), Call("F%d" % j, [V("t") if r.random() < 0.5 else V("a"), B("-", V("b"), I(1))])))))
+                body.append(ES(A(V("t"), B("+", V("t"), Call("F%d" % j, [V("a"), V("t") if r.random() < 0.5 else B("-", V("b"), I(1))])))))
             if r.random() < 0.3:
                 # bounded self recursion
                 body.insert(0, If(B("<=", V("a"), I(0)), Block([Ret(V("b"))])))
@@ -79,7 +79,7 @@ class Gen:
             callees = sorted(j for (a, j) in edges if a == i)
             body = [Decl("int", "t", B("+", B("*", V("a"), I(r.choice([2, 3, 5]))), V("b")))]
             for j in callees:
-                body.append(ES(A(V("t"), B("+", V("t"), Call("F%d" % j, [V("t") if r.random() < 0.5 else V("a"), B("-", V("b"), I(1))])))))
+                body.append(ES(A(V("t"), B("+", V("t"), Call("F%d" % j, [V("a"), V("t") if r.random() < 0.5 else B("-", V("b"), I(1))])))))
             for g in globs[i]:
                 body.append(ES(A(V(g), B("+", V(g), V("t")))))
                 body.append(ES(A(V("t"), B("-", V("t"), V(g)))))
